@@ -295,11 +295,13 @@ class GenV(object):
 
 class FuncV(object):
     """module-level function or lambda of the analysed package"""
-    __slots__ = ('mod', 'fn')
+    __slots__ = ('mod', 'fn', 'closure', 'cls')
 
-    def __init__(self, mod, fn):
+    def __init__(self, mod, fn, closure=None, cls=None):
         self.mod = mod
         self.fn = fn
+        self.closure = closure      # snapshot of the enclosing function's variables (nested def / lambda)
+        self.cls = cls              # class of the enclosing method (for frame naming)
 
     def key(self):
         return ('func', self.mod, getattr(self.fn, 'name', 'lambda'))
